@@ -7,6 +7,7 @@ Static clauses decided (see DESIGN.md section 3 C01):
   replacement.
 """
 import ast
+from ..astutil import inline_temporaries as _it
 
 from ..astutil import FuncTree, dominates
 from ..common import norm_stmt, site_id
@@ -303,7 +304,7 @@ def run(p, report, tier):
             if isinstance(sub, (ast.FunctionDef, ast.AsyncFunctionDef)) and sub is not f.node:
                 nodes.append((f"{f.qual}.<locals>.{sub.name}", sub))
         for qual, node in nodes:
-            da = DefiniteAssignment(node).run()
+            da = DefiniteAssignment(_it(node)).run()
             if not da.reports:
                 report.add("R1.7", qual, "all locals bound before use", f"{f.file}:{node.lineno}", True,
                            nontrivial=len(local_names(node)) > 3)
@@ -366,6 +367,20 @@ def run(p, report, tier):
         "dependence is flow-insensitive inside a loop body (over-approximates real dependence: R1.4 is a necessary condition)",
         "custom loops filling all batch_size slots, termination of numerical subroutines and dtype of the result are not decided",
     ]
+
+
+def pick_derived(L, ff, picks):
+    """picks plus the locals that receive their values inside the loop
+    (`i, j = picked[k]`, `idx = picked[k, 0]`)"""
+    lv, _ = value_edges(L, ff.locs)
+    out = set(picks) | forward_closure(set(picks), lv)
+    for n in ast.walk(L):
+        if isinstance(n, ast.Assign) and names_in(n.value) & out and isinstance(n.value, (ast.Subscript, ast.Name)):
+            for t in n.targets:
+                for e in (t.elts if isinstance(t, (ast.Tuple, ast.List)) else [t]):
+                    if isinstance(e, ast.Name):
+                        out.add(e.id)
+    return out
 
 
 def loop_records(funcs, facts):
